@@ -297,10 +297,16 @@ def oracle(history, steps):
         if k in ('update_one', 'update_many', 'replace_one') and ok and isinstance(st.out[1], dict) \
                 and 'upserted' in st.out[1]:
             up = st.out[1]['upserted']
-            # upserted_id = the one new _id (None: nothing was inserted, or the new _id is null)
-            if new != [freeze(up)] and not (up is None and new == []):
+            # upserted_id = the one new _id (None: nothing was inserted, or the new _id is null).
+            # New = equal (Python ==, as the store keys its documents) to no _id held before: an
+            # update may re-spell the _id of the document it modifies (1 -> 1.0, the keys of an
+            # embedded-document _id in another order), which inserts nothing.
+            held = [b.get('_id') for b in prev_docs]
+            fresh = [freeze(d.get('_id')) for d in docs
+                     if not any(h == d.get('_id') for h in held)]
+            if fresh != [freeze(up)] and not (up is None and fresh == []):
                 fails.append((i, 'upserted-id', '%s reported upserted_id %r but new _ids %r'
-                              % (k, up, new)))
+                              % (k, up, fresh)))
         if k in ('update_one', 'update_many', 'replace_one') and ok and isinstance(st.out[1], dict):
             changed = 0
             strict = 0
